@@ -229,7 +229,8 @@ def check(par, links, names, milestones, sections, clock_off, acc, base_cache, s
     lv = [i for i in range(n) if LY.is_leaf(par, i)]
     attrs = {i: {'estimate': 4, 'resource': 'A'} for i in lv}
     with_ext = spent == ('ext',)
-    if with_ext or spent == ('big',):
+    with_attrs = spent == ('attrs',)
+    if with_ext or with_attrs or spent == ('big',):
         spent = None
     if spent is not None:
         for k, i in enumerate(lv):
@@ -259,6 +260,16 @@ def check(par, links, names, milestones, sections, clock_off, acc, base_cache, s
             t.gantt_section = sections[i]
     tasks[0].gantt_bar_style = {'fill': 'red'}
     tasks[-1].network_bar_style = {'fill': '#fff'}
+    if with_attrs:
+        # custom attributes that happen to be named like keys of the embedded entries: they are the user's data, the entry's
+        # own id / name / dates / progress / type stay what the task says
+        for t_, extra in zip(tasks, ({'progress': 40, 'type': 'bug', 'open': False}, {'text': 'see ticket 4711', 'start_date': 'tbd'},
+                                     {'end_date': 'tbd', 'css_class': 'x', 'parent': 99, 'source': 1, 'target': 2})):
+            for k_, v_ in extra.items():
+                try:
+                    setattr(t_, k_, v_)
+                except (AttributeError, RuntimeError, TypeError):
+                    pass  # a name the Task class reserves (e.g. parent) is not a custom attribute
     # a dependency named twice when the list is assigned (two merged lists: [a, b, a]) is still one dependency
     for t in tasks:
         ps = list(t.predecessors)
@@ -378,6 +389,7 @@ def _work(chunk):
         # a dependency on a task outside the rendered WBS is a dependency: it gets its link / edge like the others
         for clock_off in (timedelta(hours=2),):
             jobs.append((par, links, (), {}, clock_off, 0, ('ext',)))
+            jobs.append((par, links, (k - 1,), {}, clock_off, 0, ('attrs',)))
     # deeper and wider hierarchies (every forest of 4 and 5 tasks with at least three levels, one link): parent ids of the embedded
     # entries when several summaries stand side by side, one rendering configuration each
     for nn in (4, 5):
@@ -401,6 +413,7 @@ def _work(chunk):
         idmap = None
         extv = spent == ('ext',)
         bigv = spent == ('big',)
+        attrv = spent == ('attrs',)
         if isinstance(spent, tuple) and spent and spent[0] == 'ids':
             idmap = IDMAPS[spent[1]]
             spent = None
@@ -418,7 +431,7 @@ def _work(chunk):
                 case = {'parents': list(par), 'links': [list(x) for x in links], 'names': names, 'milestones': list(ms),
                         'sections': {str(a): b for a, b in sec.items()}, 'clock_offset_h': clock_off.total_seconds() / 3600, 'renderer': kind,
                         'spent': list(spent) if spent else None, 'external_predecessor_of_last_task': extv}
-                cls = name_class(nm) if (spent is None and idmap is None) else 'external-dependency' if extv else 'larger-hierarchy' if bigv else 'spent-work' if idmap is None else 'long-ids'
+                cls = name_class(nm) if (spent is None and idmap is None) else 'external-dependency' if extv else 'larger-hierarchy' if bigv else 'entry-key-named-attributes' if attrv else 'spent-work' if idmap is None else 'long-ids'
 
                 def V(clause, msg):
                     acc.violation('C19', f'{clause}/{cls}', f'name {nm!r}: {msg}', case)
